@@ -144,12 +144,13 @@ inductive TopCb where
   | reply (cid : Option String) (id : JVal) (cast : Bool) (cmd : String) (send : Bool) (xform : String)
       -- Controller._dispatch_callback_future (xform: "" | "info" | "np" = TransformableFuture function)
   | watch                                                      -- harness: report an escaping exception
-  | stopCtl                                                    -- Arbiter.stop: loop.add_callback(stop_controller_and_close_sockets)
+  | popProc (wuid pid : Nat)                                   -- spawn_process: forget the rejected worker once its kill is done
   deriving Repr, Inhabited
 
 structure TopFut where
   tid : Nat
   cbs : List TopCb
+  armed : Bool := false        -- false while the coroutine's first (eager) run is still on the stack
   deriving Repr, Inhabited
 
 /-- continuation points: "the rest of coroutine X after its yield number i" with its locals -/
@@ -177,6 +178,8 @@ inductive Kont where
   | arbReloadNext (rest : List Nat) (graceful sequential : Bool)
   | quitAfterStop
   | manageAfterStopOrSpawn (wuid : Nat)
+  | killWaitOther (pid : Nat)                               -- kill_process: another kill of this process is in flight
+  | multiSlot (fid slot : Nat)                              -- callback of gen.multi for one child
   | ignore                                                  -- result discarded, coroutine returns None
   | pass                                                    -- result handed on unchanged
   deriving Repr, Inhabited
@@ -185,6 +188,9 @@ structure Frame where
   fid : Nat
   k : Kont
   parent : Waiter
+  armed : Bool := false        -- false while the awaited child's first (eager) run is still on the stack:
+                               -- a result arriving then continues the parent synchronously, later ones
+                               -- go through the event loop's ready queue
   deriving Repr, Inhabited
 
 structure Sleeper where
@@ -202,7 +208,13 @@ structure Arbiter where
   warmup : Nat := 0
   pubClosed : Bool := false
   ctlClosed : Bool := false
-  closePending : Bool := false               -- loop.add_callback(stop_controller_and_close_sockets) queued
+  deriving Repr, Inhabited
+
+/-- entries of the event loop's ready queue (`call_soon`) -/
+inductive Ready where
+  | resume (k : Kont) (v : Val) (w : Waiter)   -- a future's done-callback resuming a coroutine
+  | topCb (cb : TopCb) (v : Val)               -- done-callback of a top-level future
+  | closeCtl                                   -- loop.add_callback(stop_controller_and_close_sockets)
   deriving Repr, Inhabited
 
 structure State where
@@ -213,6 +225,7 @@ structure State where
   frames : List Frame := []
   sleepers : List Sleeper := []
   tops : List TopFut := []
+  ready : List Ready := []                   -- FIFO
   doneVals : List (Nat × Val) := []          -- outcomes of top-level futures that completed during the current request
   nextId : Nat := 1
   log : List Obs := []                       -- ghost log, newest last
